@@ -9,6 +9,12 @@ from mc.model import Model, ModelRefuse, iso_dir_legal, iso_file_legal
 from mc.readers import r119, r167
 from mc import decode as dec
 
+def _stable(t):
+    """A digest that does not depend on the per-process hash seed (evidence counts must be reproducible)."""
+    import zlib
+    return zlib.crc32(repr(t).encode('utf-8', 'surrogatepass'))
+
+
 PROP = 'C13'
 LEVEL = 'exploration'
 ASSUMPTIONS = [
@@ -356,7 +362,7 @@ def run_task(task):
                     vs, tag = attempt(cfg, 'iso', s, is_dir)
                     res.count('evaluations')
                     res.count('string_' + tag.replace(' ', '_'))
-                    res.add('outcomes', hash((tag, is_dir, task['level'], legal_iso(s, cfg, is_dir))) & 0xffff)
+                    res.add('outcomes', _stable((tag, is_dir, task['level'], legal_iso(s, cfg, is_dir))) & 0xffff)
                     rec(vs, {'kind': 'string', 'cfg': cfg, 'ns': 'iso', 'name': s, 'is_dir': is_dir, 'depth': 0, 'size': len(s)})
         res.sample({'kind': 'strings', 'first': task['first'], 'level': task['level'], 'maxlen': task['maxlen']})
     elif task['kind'] == 'boundary':
@@ -364,7 +370,7 @@ def run_task(task):
             vs, tag = attempt(cfg, ns, name, is_dir, dp)
             res.count('evaluations')
             res.count('boundary_' + tag.replace(' ', '_'))
-            res.add('outcomes', hash((tag, ns, is_dir, cfg_name(cfg), len(name))) & 0xffff)
+            res.add('outcomes', _stable((tag, ns, is_dir, cfg_name(cfg), len(name))) & 0xffff)
             rec(vs, {'kind': 'string', 'cfg': cfg, 'ns': ns, 'name': name, 'is_dir': is_dir, 'depth': dp, 'size': len(name)})
     else:
         cfg = task['cfg']
@@ -373,7 +379,7 @@ def run_task(task):
         def dfs(seq):
             vs, upto, tag = run_dup(cfg, seq, res)
             res.count('evaluations')
-            res.add('outcomes', hash((tag, cfg_name(cfg), seq[-1][0] if seq else '')) & 0xffff)
+            res.add('outcomes', _stable((tag, cfg_name(cfg), seq[-1][0] if seq else '')) & 0xffff)
             rec(vs, {'kind': 'dup', 'cfg': cfg, 'ops': seq, 'size': len(seq)})
             if vs or tag != 'ok' or len(seq) >= task['depth']:
                 return
